@@ -1284,6 +1284,8 @@ def model_np_full(interp, args, kwargs, node):
     dt = kwargs.get('dtype', args[2] if len(args) > 2 else None)
     k = _dtype_kind(dt) if dt is not None else kind_of(v)
     tmp = SArr(V.to_int_term(n), None, k)
+    if v is None and k == 'float':
+        v = float('nan')        # np.full(n, None, dtype=float) is an array of NaN
     val = coerce_elem(interp, tmp, v, node)
     return SArr(V.to_int_term(n), z3.K(INT, val), k)
 
